@@ -1465,7 +1465,13 @@ class FnEval:
         if adt == "std::ops::Range":
             a = vals.get("start", (ANY, 0))[0]
             b = vals.get("end", (ANY, 0))[0]
-            return self.make_range(a, b, e)
+            rv = self.make_range(a, b, e)
+            # `x - l .. x` and `x .. x + l` have length l whatever side x is a position of: remember the sort of l as the
+            # width of the range (read by `.len()`), so that `old_tail.len()` of `end - suffix_len..end` is a common length
+            w = self._range_width(e)
+            if w is not None and isinstance(rv, tuple) and rv[0] == "R" and is_s(rv[2]) and rv[2][4] is None:
+                rv = R(rv[1], ("S", rv[2][1], rv[2][2], rv[2][3], ("width", w)))
+            return rv
         if adt == "std::ops::RangeFull":
             return ("RF",)
         if adt == "std::ops::RangeFrom":
@@ -1495,6 +1501,27 @@ class FnEval:
             self.ctx.count("struct_literals")
             return A(adt, {k: v for k, (v, _) in vals.items()})
         return ANY
+
+    def _range_width(self, e):
+        from .tables import origin, unwrap
+        fe = {f["name"]: unwrap(f["e"]) for f in e["fields"]}
+        st, en = fe.get("start"), fe.get("end")
+        if not (isinstance(st, dict) and isinstance(en, dict)):
+            return None
+        lexpr = None
+        if st.get("k") == "binary" and st["op"] == "-" and origin(st["l"]) == origin(en) and "?" not in origin(en):
+            lexpr = st["r"]
+        elif en.get("k") == "binary" and en["op"] == "+" and origin(en["l"]) == origin(st) and "?" not in origin(st):
+            lexpr = en["r"]
+        if lexpr is None:
+            return None
+        saved = self.report
+        self.report = False
+        try:
+            w = self.ev(lexpr)
+        finally:
+            self.report = saved
+        return w if is_s(w) and w[1] == LEN else None
 
     def make_range(self, a, b, e):
         # 0..x.len() over a sequence -> the full range of that sequence (positions of its side/frame)
@@ -1871,6 +1898,8 @@ class FnEval:
         if path == "std::ops::Try::branch":
             return a0 if a0 is not None else ANY
         if isinstance(a0, tuple) and a0 and a0[0] == "R" and name == "len":
+            if is_s(a0[2]) and isinstance(a0[2][4], tuple) and a0[2][4] and a0[2][4][0] == "width":
+                return a0[2][4][1]
             ss = sides_of(a0)
             return S(LEN, list(ss)[0] if len(ss) == 1 else None)
         if path == "std::ops::FromResidual::from_residual":
